@@ -139,7 +139,7 @@ def run(ck):
 
     r_ = rng(27)
     root = mktmp("c27")
-    n = 1 if ck.replay_case else ck.pick(10, 150)
+    n = 1 if ck.replay_case else ck.pick(10, 80)
     my_events, fs_events, cases = [], [], {}
     for tid in range(n):
         if ck.replay_case:
@@ -186,7 +186,7 @@ def run(ck):
         # (close -> chown -> chmod -> rename), where the complete temp file sits next to the entry.
         rt = os.path.join(root, f"r{tid}")
         evs, info = atomic.scenario(tid, rt, setup, op, reader=reader, watch_paths=[fp], frame=frame,
-                                    faults=True, max_cuts=ck.pick(12, 40), label="cache.store")
+                                    faults=True, max_cuts=ck.pick(12, 24), label="cache.store")
         tail_i = max(e["i"] for e in evs) + 1
         for k in range(max(2, info["n_mut"] - 4), info["n_mut"]):
             for kind in ("cut", "eio"):
@@ -232,7 +232,7 @@ def run(ck):
         d = short(cases[v["tid"]])
         if e["ev"] == "reader":
             d.update(event="reader", kind=e["kind"], k=e["k"], at_op=e["at_op"], at_temp="/.update." in e["at_path"],
-                     got=e["got"]["state"], keys=e["keys"], temp_listed=any("/.update." in k or k.startswith(".update.") for k in e["keys"]))
+                     got=e["got"]["state"], keys=[k.replace(f".update.{os.getpid()}.", ".update.PID.") for k in e["keys"]], temp_listed=any("/.update." in k or k.startswith(".update.") for k in e["keys"]))
         else:
             d.update(event="store", got=e["got"], keys=e["keys"])
         ck.violation(v["clause"], d)
